@@ -354,6 +354,7 @@ func runWithCommon(def *propDef, r *Run) {
 			r.ChanMakeTable(filePrefix(sc...), "buffer sizes of the channels created on the network, pool, RPC and producer paths")
 		}
 		r.AllGuardTable(filePrefix(sc...), "every rejection performed on the reviewed tree is still performed")
+		r.AllEffectTable(filePrefix(sc...), "every call (with its arguments) and every non-local store performed on the reviewed tree is still performed")
 		r.PlainBranchTable(filePrefix(sc...), "no new or altered non-rejecting fork")
 		r.MustPassEffectTable(filePrefix(sc...), "and what they do: a new accepting path that skips a state change (record saved, balance moved, marker set, cache purged, nested verification) leaves the ledger half-updated")
 	}
@@ -565,10 +566,7 @@ func (r *Run) MustPassEffectTable(keep func(tableRow) bool, why string) int {
 		}
 		if cache[row.F] == nil {
 			cache[row.F] = r.mustPassEffects(fn)
-			all[row.F] = map[string]bool{}
-			for _, e := range r.P.Effects(fn) {
-				all[row.F][e.Canon] = true
-			}
+			all[row.F] = r.P.EffectSetInlined(fn)
 		}
 		if !all[row.F][row.C] {
 			if isRecordEffectCanon(row.C) && !implicitZeroStore(all[row.F], row.C) {
@@ -583,6 +581,17 @@ func (r *Run) MustPassEffectTable(keep func(tableRow) bool, why string) int {
 		n++
 		if e := cache[row.F][row.C]; e != nil {
 			r.pass("K2-effect-bypassed", row.F, row.C+" on every accepting path", "", why, e.File, e.Line)
+			continue
+		}
+		own := false
+		for _, e := range r.P.Effects(fn) {
+			if e.Canon == row.C {
+				own = true
+			}
+		}
+		if !own {
+			// performed through a helper now: which paths pass it is the helper's call site's business
+			absent++
 			continue
 		}
 		file, line := r.P.FnPos(fn)
@@ -853,6 +862,92 @@ func (r *Run) ChanMakeTable(keep func(tableRow) bool, why string) int {
 			continue
 		}
 		r.pass("K6-chan-capacity", name, "channels created", fmt.Sprintf("%d frozen", len(want[name])), why, file, line)
+	}
+	return n
+}
+
+//go:embed tables/all_effects.json
+var allEffectsJSON []byte
+
+// tableEffect selects the effects frozen per function: every call other than logging, message
+// construction and pure builtins, every store to non-local memory (logging argument arrays
+// excluded), with go/defer forms and lock operations.
+func tableEffect(e *Effect) bool {
+	c := e.Canon
+	if e.Kind == "return" {
+		return false
+	}
+	if strings.Contains(c, "interface{}") || strings.Contains(c, "[]any") || strings.Contains(c, "]any)") || strings.Contains(c, "Log.") || strings.Contains(c, "log.") || strings.Contains(e.Callee, "Logger") {
+		return false
+	}
+	if e.Kind == "store" {
+		return true
+	}
+	switch {
+	case strings.HasPrefix(e.Callee, "builtin:"):
+		switch strings.TrimPrefix(e.Callee, "builtin:") {
+		case "delete", "copy", "close", "panic", "recover":
+			return true
+		}
+		return false
+	case strings.HasPrefix(e.Callee, "fmt."), strings.HasPrefix(e.Callee, "github.com/pkg/errors."), strings.HasPrefix(e.Callee, "errors."), strings.HasPrefix(e.Callee, "runtime/debug."), strings.HasPrefix(e.Callee, "strings."), strings.HasPrefix(e.Callee, "strconv.Itoa"):
+		return false
+	case e.Callee == "dyn" || e.Callee == "":
+		return true
+	}
+	return true
+}
+
+// AllEffectTable: every call (with its canonical arguments) and every non-local store a function of
+// the selected files performed on the reviewed tree is still there: no dropped call, wrong argument,
+// swapped operand, changed constant, lost unlock or defer.
+func (r *Run) AllEffectTable(keep func(tableRow) bool, why string) int {
+	var rows []tableRow
+	if err := json.Unmarshal(allEffectsJSON, &rows); err != nil {
+		panic("bad embedded table: " + err.Error())
+	}
+	n := 0
+	sets := map[string]map[string]bool{}
+	for _, row := range rows {
+		if !keep(row) {
+			continue
+		}
+		fn := r.P.Fn(row.F)
+		if fn == nil || fn.Blocks == nil {
+			continue
+		}
+		set := sets[row.F]
+		if set == nil {
+			set = r.P.EffectSetInlined(fn)
+			sets[row.F] = set
+		}
+		n++
+		file, line := r.P.FnPos(fn)
+		if set[row.C] || implicitZeroStore(set, row.C) {
+			r.pass("K4-effect", row.F, row.C, "", why, file, line)
+			continue
+		}
+		head := row.C
+		if i := strings.Index(head, " = "); i > 0 && strings.HasPrefix(head, "store ") {
+			head = head[:i]
+		} else if i := strings.Index(head, "("); i > 0 {
+			head = head[:i]
+		}
+		var near []string
+		for c := range set {
+			if strings.HasPrefix(c, head) {
+				near = append(near, c)
+			}
+		}
+		sort.Strings(near)
+		d := row.F + " no longer performs `" + row.C + "`"
+		if len(near) > 0 && len(near) < 4 {
+			d += "; it now has: " + strings.Join(near, " ; ")
+		}
+		r.viol("K4-effect", row.F, row.C, d, why, file, line)
+	}
+	if n == 0 {
+		r.viol("vacuous-rule", "", "effect table (all)", "no table row selected", why, "", 0)
 	}
 	return n
 }
